@@ -72,6 +72,7 @@ type State struct {
 	termSet  map[string]bool
 	noTrig   bool
 	pendingBound []string
+	instDepth int
 }
 
 func (s *State) clone() *State {
